@@ -60,8 +60,18 @@ def dump_value(o, parent, depth=0):
         loc = "X:" + type(e).__name__
     d = {"cls": cls.__name__, "pos": getattr(o, "_tx_position", None), "end": getattr(o, "_tx_position_end", None),
          "loc": loc, "attrs": [], "extra": [], "parent_ok": True}
-    for name in attrs:
-        d["attrs"].append([name, dump_value(getattr(o, name, "<missing>"), o, depth + 1)])
+    for name, meta in attrs.items():
+        val = getattr(o, name, "<missing>")
+        if meta.ref and not meta.cont:
+            # non-containment reference: the resolved target(s), not dumped recursively
+            def ref(x):
+                if x is None:
+                    return None
+                return {"refto": {"name": getattr(x, "name", None), "cls": type(x).__name__,
+                                  "pos": getattr(x, "_tx_position", None)}}
+            d["attrs"].append([name, {"l": [ref(x) for x in val]} if isinstance(val, list) else ref(val)])
+        else:
+            d["attrs"].append([name, dump_value(val, o, depth + 1)])
     for k in vars(o):
         if not k.startswith("_tx") and k != "parent" and k not in attrs:
             d["extra"].append(k)
